@@ -60,7 +60,7 @@ def run_bucket(cfg, res):
   util.time = vt.time
   util.sleep = vt.sleep
   r = gen.rng(cfg['seed'], 'C20', cfg['name'])
-  for case in range(150 if cfg['tier'] == 'quick' else 500):
+  for case in range(150 if cfg['tier'] == 'quick' else 1500):
     cap = r.choice([1, 2, 5, 60, 1000])
     rate = r.choice([1.0 / 60, 0.5, 1, 2, 50, 500, 1000])
     b = util.TokenBucket(cap, rate)
@@ -154,7 +154,7 @@ def run_writer(cfg, res):
   if (writer.CREATE_BUCKET is None) != (cr == inf) or (writer.UPDATE_BUCKET is None) != (up == inf):
     res.inconc('rate limit buckets not configured as requested')
     return
-  for case in range(12 if cfg['tier'] == 'quick' else 40):
+  for case in range(12 if cfg['tier'] == 'quick' else 150):
     # fresh buckets as at daemon start, built by carbon's own module-level code (so that the derivation of capacity
     # and fill rate from the settings is the code under test)
     import importlib
